@@ -334,6 +334,10 @@ func (c *channel) receiver() {
 
 		select {
 		case <-c.parentCtx.Done():
+			// The node was closed. If that happened while a reply was being handed
+			// over, the stream error was never seen; fail the messages that are
+			// still awaiting their reply, since nobody will be receiving it.
+			c.cancelPendingMsgs()
 			return
 		default:
 		}
